@@ -292,7 +292,7 @@ Proof.
   destruct (keytree_invariant cap h s outs Vh Hr) as (_ & HR).
   destruct (kr_state ([], None) h) as [b now]. simpl in HR.
   destruct (k_step_refines s b now o HR Vo) as (s' & out & evs & Hs & _ & _ & Hev).
-  exists s', out, evs. split; [exact Hs|exact Hev].
+  exists s', out, evs. split; [exact Hs|]. intros ev Hin Hk. apply (proj2 (Hev ev Hin) Hk).
 Qed.
 
 (* discharges [kvalid_hist] of a concrete history (used by the non-vacuity examples) *)
@@ -301,3 +301,20 @@ Ltac kvalid_tac :=
   try (let x := fresh "x" in let Hx := fresh "Hx" in let Hk := fresh "Hk" in
        intros x Hx Hk; cbn in Hx;
        repeat (destruct Hx as [Hx|Hx]; [subst x; cbn in *; try lia; try discriminate|]); try contradiction).
+
+(* C18 (model part): at every callback of an operation (expiration() accessor, key comparison,
+   comparator closure) the collection is in a state that satisfies the representation invariant and
+   is related to the SAME bag as before the operation: its observable contents are those before the
+   operation; a panic there leaves a usable, un-torn collection *)
+Theorem callback_states s b now o s' out evs : RKT s b now -> kvalid (b, now) o ->
+  k_step s o = Ret (s', out, evs) ->
+  forall ev, In ev evs -> KInv (snd ev) /\ RKT (snd ev) b (Some (op_time o)).
+Proof.
+  intros HR V Hs ev Hin.
+  destruct (k_step_refines s b now o HR V) as (s2 & out2 & evs2 & Hs2 & _ & _ & Hev).
+  rewrite Hs in Hs2. inversion Hs2; subst s2 out2 evs2.
+  destruct (Hev ev Hin) as ((HI' & Hsh) & _). split; [exact HI'|].
+  assert (T: time_ok now (op_time o)).
+  { destruct o; simpl in V |- *; try tauto; simpl in Hs; inversion Hs; subst; destruct Hin. }
+  apply (RKT_shrink s (snd ev) b now (op_time o) HR T HI' Hsh).
+Qed.
